@@ -472,6 +472,11 @@ func (u *PacketUnderlay) readOneSegment() (*segment, net.Addr, error) {
 			// Try existing sessions.
 			decryptedMeta, blockCipher, matchedPolicy, decrypted = u.tryDecryptExistingSession(encryptedMeta, addr)
 
+			if decrypted && len(decryptedMeta) > 0 && protocolType(decryptedMeta[0]) == openSessionRequest {
+				// A new session is a new authentication. The credential of
+				// an existing session may no longer be registered.
+				decrypted = false
+			}
 			if !decrypted {
 				// Existing-session lookup intentionally remains first and scans
 				// the session registry. Source-IP candidates are consulted only
